@@ -353,18 +353,25 @@ def run_mono(P, C):
         okb = okb and len(cnt) == 1 and G.alpha(cnt[0])[1][0] == tr[0][3][1]
     C.ob("SG-4", "glamfit_complex", "basis-tril", okb, G.loc(tr[0][0]) if tr else G.where(), "basis of the monotonic dimension is multiplied by the lower-triangular ones matrix of its size")
     Pn = P.one("calc_penalty", file_endswith="glam.c")
-    tr = gw.calls(Pn, "cholmod_tril")
-    mm = [c for c in gw.calls(Pn, "cholmod_l_ssmult") if c[2] == "(v0=cholmod_l_ssmult(v1,v2,0,1,0,$7))"]
+    trs = gw.calls(Pn, "cholmod_tril")
     t2s = gw.calls(Pn, "cholmod_l_triplet_to_sparse")
     okp = False
-    if len(tr) == 1 and len(mm) == 1 and len(t2s) == 1:
-        ifs = [x for x in Pn.ancestors(tr[0][1]) if Pn.k(x) == "IfStmt"]
+    own = None          # the condition under which the function's own dimension is the monotonic one
+    if trs and len(t2s) == 1:
         fd = t2s[0][3][0]
-        olds = [x for x in Pn.walk(Pn.nodes[ifs[0]]["then"]) if ts.assign_parts(Pn, x) and Pn.alpha(x)[0].replace(" ", "") == "(v0=v1)"] if ifs else []
-        okp = bool(ifs) and Pn.alpha(Pn.nodes[ifs[0]]["cond"])[0].replace(" ", "") == "$6" and tr[0][2] == "(v0=cholmod_tril($0[$3],$7))" and \
-            mm[0][3][0] == fd and mm[0][3][2] == tr[0][3][0] and len(olds) == 1 and Pn.alpha(olds[0])[1] == [mm[0][3][1], fd] and \
-            mm[0][1] in set(Pn.walk(Pn.nodes[ifs[0]]["then"]))
-    C.ob("SG-4", "calc_penalty", "penalty-tril", okp, Pn.loc(tr[0][0]) if tr else Pn.where(), "the difference matrix of the monotonic dimension is multiplied by the same lower-triangular matrix")
+        for tr in trs:
+            ifs = [x for x in Pn.ancestors(tr[1]) if Pn.k(x) == "IfStmt"]
+            if not ifs or tr[2] != "(v0=cholmod_tril($0[$3],$7))":
+                continue
+            mm = [c for c in gw.calls(Pn, "cholmod_l_ssmult") if c[2] == "(v0=cholmod_l_ssmult(v1,v2,0,1,0,$7))" and c[1] in set(Pn.walk(Pn.nodes[ifs[0]]["then"]))]
+            olds = [x for x in Pn.walk(Pn.nodes[ifs[0]]["then"]) if ts.assign_parts(Pn, x) and Pn.alpha(x)[0].replace(" ", "") == "(v0=v1)"]
+            ct = Pn.alpha(Pn.nodes[ifs[0]]["cond"])[0].replace(" ", "")
+            # accepted ways of saying "dim is the monotonic dimension": a flag parameter, or an index parameter compared with dim
+            if ct in ("$6", "((0<=$6)&&((uint32_t)$6==$3))", "((0<=$6)&&($3==(uint32_t)$6))", "($3==$6)", "($6==$3)") and len(mm) == 1 and \
+                    mm[0][3][0] == fd and mm[0][3][2] == tr[3][0] and len(olds) == 1 and Pn.alpha(olds[0])[1] == [mm[0][3][1], fd]:
+                okp = True
+                own = ct
+    C.ob("SG-4", "calc_penalty", "penalty-tril", okp, Pn.loc(trs[0][0]) if trs else Pn.where(), "the difference matrix of the monotonic dimension is multiplied by the same lower-triangular matrix")
     A = P.one("add_penalty_term", file_endswith="glam.c")
     fw = gw.calls(A, "calc_penalty")
     okf = len(fw) == 1 and fw[0][2] == "(v0=calc_penalty($0,$1,$2,$3,$4,$5,$7,$9))"
@@ -375,10 +382,83 @@ def run_mono(P, C):
             if cal and cal["name"] == "add_penalty_term":
                 a = f.args(i)
                 d3, d7 = f.alpha(a[3]), f.alpha(a[7])
-                passed.append((d3[0].replace(" ", ""), d7[0].replace(" ", ""), d3[1] == d7[1]))
-    okm = bool(passed) and all(p == ("v0", "(v0==$7)", True) for p in passed)
+                passed.append((d3[0].replace(" ", ""), d7[0].replace(" ", ""), d3[1] == d7[1] or not d7[1]))
+    as_flag = own == "$6"
+    okm = bool(passed) and all(p == (("v0", "(v0==$7)", True) if as_flag else ("v0", "(($7==no_monodim)?(-1):(int)$7)", True)) for p in passed)
     C.ob("SG-4", "fit", "mono-flag", okf and okm, A.where(),
-         "fit passes (dimension i, i == monodim) to add_penalty_term, which forwards the flag unchanged to calc_penalty: %s %s" % (passed[:1], fw[0][2] if fw else None))
+         "fit tells add_penalty_term which dimension is the monotonic one (%s), and add_penalty_term forwards that unchanged to calc_penalty: %s %s"
+         % ("as the flag i == monodim" if as_flag else "as its index, -1 for none", passed[:1], fw[0][2] if fw else None))
+    # SG-6: every term of the objective is written in the T-spline coefficients
+    C.rule("SG-6", "in a monotonic fit the unknowns are T-spline coefficients t (c = T t along the monotonic dimension, SG-4) in EVERY term of the "
+           "objective: the penalty of a dimension other than the monotonic one must carry T'T, not the identity, in the monotonic slot of its "
+           "Kronecker product — and since kronecker_product multiplies stored entries, no factor may then be stored as one triangle", floor=2)
+    kr = gw.calls(Pn, "kronecker_product")
+    tt = None
+    det6 = "calc_penalty has no Kronecker factor built from cholmod_tril: for dim != monodim the monotonic slot gets the identity, so the smoothing " \
+           "of the other dimensions acts on the increments t instead of the coefficients T t (an inactive constraint then changes the fit)"
+    loop = next((a for a in Pn.ancestors(kr[0][1]) if Pn.k(a) == "ForStmt"), None) if len(kr) == 1 else None
+    cl = gw._c_canonical_loop(Pn, loop) if loop is not None else None
+    if cl is not None:
+        iv, tmp2 = cl[0], kr[0][3][2]
+        for tr in trs:
+            if tr[1] not in set(Pn.walk(loop)):
+                continue
+            # T = cholmod_tril(nsplines[i]); Tt = transpose(T); factor = ssmult(Tt, T, 0, ...)
+            if tr[2] != "(v0=cholmod_tril($0[v1],$7))" or tr[3][1] != iv:
+                det6 = "the triangular matrix in the Kronecker loop is not of size nsplines[i]: %s" % tr[2]
+                continue
+            T = tr[3][0]
+            tps = [t for t in gw.calls(Pn, "cholmod_l_transpose") if t[2] == "(v0=cholmod_l_transpose(v1,1,$7))" and t[3][1] == T]
+            mm = [c for c in gw.calls(Pn, "cholmod_l_ssmult") if c[2] == "(v0=cholmod_l_ssmult(v1,v2,0,1,0,$7))" and c[3][0] == tmp2 and
+                  tps and c[3][1] == tps[0][3][0] and c[3][2] == T]
+            if len(tps) == 1 and len(mm) == 1:
+                tt = mm[0]
+            else:
+                det6 = "the factor built from cholmod_tril in the Kronecker loop is not transpose(T) * T stored in full"
+    ok6 = False
+    flag = None
+    if tt is not None:
+        g = [a for a in Pn.ancestors(tt[1]) if Pn.k(a) == "IfStmt" and a in set(Pn.walk(loop))]
+        inner = g[0] if g else None
+        conn, leaves = core.cond_leaves(Pn, Pn.nodes[inner]["cond"]) if inner is not None else ("", [])
+        lt = [Pn.alpha(x) for x in leaves]
+        # i == monodim, and (directly or through a flag computed before the loop) monodim != dim
+        is_slot = any(t[0].replace(" ", "") in ("(v0==$6)", "($6==v0)") and t[1] == [iv] for t in lt)
+        flags = [Pn.strip(x) for x in leaves if Pn.k(Pn.strip(x)) == "DeclRefExpr" and Pn.nodes[Pn.strip(x)]["decl"].get("kind") == "Var"]
+        other = any(t[0].replace(" ", "") in ("($3!=(uint32_t)$6)", "((uint32_t)$6!=$3)", "($6!=$3)", "($3!=$6)") for t in lt)
+        if flags and not other:
+            flag = Pn.nodes[flags[0]]["decl"]["id"]
+            fdef = [x for x in Pn.walk() if ts.assign_parts(Pn, x) and Pn.nodes[x].get("op") == "=" and Pn.k(Pn.strip(ts.assign_parts(Pn, x)[0])) == "DeclRefExpr" and
+                    Pn.nodes[Pn.strip(ts.assign_parts(Pn, x)[0])]["decl"].get("id") == flag]
+            if len(fdef) == 1:
+                c2, l2 = core.cond_leaves(Pn, ts.assign_parts(Pn, fdef[0])[1])
+                l2t = [Pn.alpha(x)[0].replace(" ", "") for x in l2]
+                other = c2 == "&&" and any(t in ("((uint32_t)$6!=$3)", "($3!=(uint32_t)$6)") for t in l2t) and any(t == "(0<=$6)" for t in l2t)
+        ok6 = conn in ("&&", "leaf") and is_slot and other and inner is not None and \
+            (Pn.nodes[inner].get("then") == tt[1] or tt[1] in set(Pn.walk(Pn.nodes[inner]["then"])))
+        det6 = "factor_i = transpose(T) * T with T = tril(nsplines[i]) exactly when i is the monotonic dimension and it is not the penalised one: %s" % ok6
+    C.ob("SG-6", "calc_penalty", "t-basis-in-every-penalty-term", ok6, Pn.loc(tt[0]) if tt else Pn.where(), det6)
+    # storage: under the same condition every factor has both triangles
+    ok7 = False
+    det7 = "not applicable: no T'T factor"
+    if ok6:
+        st1 = [x for x in Pn.walk(loop) if ts.assign_parts(Pn, x) and Pn.alpha(x)[0].replace(" ", "") == "(v0->stype=1)"]
+        guarded = True
+        for x in st1:
+            g = [a for a in Pn.ancestors(x) if Pn.k(a) == "IfStmt" and a in set(Pn.walk(loop))]
+            ct = Pn.alpha(Pn.nodes[g[0]]["cond"]) if g else ("", [])
+            guarded = guarded and bool(g) and flag is not None and ct[0].replace(" ", "") == "(!v0)" and ct[1] == [flag] and \
+                (Pn.nodes[g[0]].get("then") == x or x in set(Pn.walk(Pn.nodes[g[0]]["then"])))
+        cps = [c for c in gw.calls(Pn, "cholmod_l_copy") if c[2] == "(v0=cholmod_l_copy(v1,0,1,$7))"]
+        blk = False
+        for c in cps:
+            g = [a for a in Pn.ancestors(c[1]) if Pn.k(a) == "IfStmt"]
+            ct = Pn.alpha(Pn.nodes[g[0]]["cond"]) if g else ("", [])
+            if g and flag is not None and ct[0].replace(" ", "") == "v0" and ct[1] == [flag]:
+                blk = True
+        ok7 = guarded and blk and flag is not None
+        det7 = "symmetric one-triangle storage (stype = 1) is set only when there is no T'T factor: %s; the block D'D is expanded to both triangles when there is one: %s" % (guarded, blk)
+    C.ob("SG-6", "calc_penalty", "full-storage-with-two-dense-factors", ok7, Pn.where(), det7)
 
 
 def sg5(P, C):
